@@ -52,7 +52,13 @@ def main(argv):
     fixed.set_format(FortranFormat(False, False))
     free = FortranStringReader("x = 1\n", include_omp_conditional_lines=True)
     free.set_format(FortranFormat(True, False))
-    pats = [("fixed", fixed._re_omp_sentinel, spec_fixed), ("free_initial", free._re_omp_sentinel, spec_free_initial),
+    strict = FortranStringReader("      x = 1\n", include_omp_conditional_lines=True)
+    strict.set_format(FortranFormat(False, True))       # strict fixed form (f77): the same column rules
+    strict_free = FortranStringReader("x = 1\n", include_omp_conditional_lines=True)
+    strict_free.set_format(FortranFormat(True, True))
+    pats = [("fixed", fixed._re_omp_sentinel, spec_fixed), ("strict_fixed", strict._re_omp_sentinel, spec_fixed),
+            ("strict_free_initial", strict_free._re_omp_sentinel, spec_free_initial),
+            ("free_initial", free._re_omp_sentinel, spec_free_initial),
             ("free_cont", free._re_omp_sentinel_cont, spec_free_cont)]
     maxlen = 8 if tier == "thorough" else 7
     cases = 0
